@@ -32,6 +32,7 @@ import numpy as np
 
 from harness import core, gen_scheme
 from harness.core import enc, lst, rat, rats, strs
+from harness.props import _c14_translate as trl
 from harness.props import _c14_zoo as zoo
 from harness.props import c02, c03
 
@@ -64,10 +65,24 @@ REQUIRED_THEOREMS = [
     "noise_free_is_deterministic",
     "seeded_noise_reproducible",
     "seeded_noise_entry",
+    "generated_simulate_from_clp_eq_model",
+    "generated_simulate_full_model_eq_model",
+    "generated_simulate_eq_model",
+    "generated_simulate_eq_model_table",
+    "simulated_dataset_on_requested_coordinates",
+    "zero_tolerance_links_only_equal_points",
+    "truth_is_zero_objective_any_label_order",
+    "full_model_weighted_truth",
 ]
+LEAN_GEN = core.LEAN / "GlotaranModel" / "Generated" / "C14Fns.lean"
 TRUSTED = [
-    "hand-written model lean/GlotaranModel/C14.lean of glotaran/simulation/simulation.py (simulate, simulate_from_clp, "
-    "simulate_full_model) composed with the C02/C03 model of the provider stack; tied to the code by differential execution only",
+    "glotaran/simulation/simulation.py (simulate, simulate_from_clp, simulate_full_model) is tied by regeneration: "
+    "harness/props/_c14_translate.py (an ast -> Lean translator, trusted) rewrites the three functions statement by statement into the "
+    "vocabulary lean/GlotaranModel/C14Py.lean (the documented meaning of the numpy / xarray operations they use: isel by position, sel by "
+    "label with pandas' duplicate-before-missing order, np.dot, column assignment, np.random.seed / normal on the global generator; trusted, "
+    "and observed by the differential streams) and generated_*_eq_model prove the regenerated text equal to the hand-written model; the "
+    "composition with the C02/C03 model of the provider stack (MatrixProvider.calculate_dataset_matrix = C02.datasetMatrix) is tied by "
+    "differential execution",
     "numpy's global RandomState: np.random.seed(s); np.random.normal(loc, std) == loc + std * RandomState(s).standard_normal "
     "(observed bit for bit on every noise case; the generator itself is a parameter of the model)",
     "LAPACK / scipy.optimize.nnls / scipy.optimize.least_squares numerics (observed: residual at the truth <= 1e-9 |data|, "
@@ -102,12 +117,41 @@ RULE = (
     "clp-guide datasets, megacomplex scales, dataset scales, 1-3 datasets linked or not, irregular time and spectral axes, "
     "clp-driven or full-model (spectral megacomplex with gaussian / skewed-gaussian / one shapes). malformed stream: missing / "
     "duplicate / absent clp labels, too few clp rows, no clp, index-dependent global matrix, empty global axis. noise stream: "
-    "seeds incl. 0, no seed (current generator state), std incl. 0. recovery stream: 3 of 4 cases from the core family (incl. "
+    "seeds incl. 0, no seed (current generator state), std incl. 0. call stream: one dataset of an exact case, `coordinates` with the model "
+    "entry first / last, a third entry, without the model entry, with the model entry only; 30 % with noise. label-order stream: one "
+    "linked group at tolerance 0 (all three link methods) of 2-3 datasets that carry the same 2-3 clp labels in different orders (one "
+    "megacomplex, split over two, or index dependent; dataset scales and weights), global axes base + {0, 1, 2} with base in {10000, 20000, "
+    "12288}, points of later datasets moved by 0 / 2^-4 / -2^-5 (at least one moved: < 1e-5 relative, must stay unlinked; the others linked). "
+    "weighted full models: full-model specs with a dataset weight, a model weights item (global and model intervals) or both. recovery stream: 3 of 4 cases from the core family (incl. "
     "deliberately non-identifiable members), 1 of 4 from the whole zoo, starts 3-20 % off; tested / skipped / observed per the rule "
     "in coverage.recovery.rule. non-trivial = simulated data not identically zero; distinct = distinct case description"
 )
 RTOL = 1e-9
 EPS = 2.0 ** -52
+
+
+def generate(ck):
+    """regenerate lean/GlotaranModel/Generated/C14Fns.lean from the source text of simulation.py (written only when it changes)"""
+    text, report = trl.translate(core.REPO)
+    if trl.write_if_changed(LEAN_GEN, text):
+        # a translation Lean does not accept (ill-typed for source of an unforeseen shape) must not take the model library down
+        # with it: it is an untranslatable source, handled by the broken-obligation path
+        with core.lake_lock():
+            rc, out, err = core._run(["lake", "build", "GlotaranModel.Generated.C14Fns"], cwd=core.LEAN)
+        if rc != 0:
+            errs = [l for l in (out + err).splitlines() if l.startswith("error:")]
+            reason = "generated definitions rejected by Lean: " + (errs[0] if errs else "build failed")
+            text = trl.all_untranslatable(reason)
+            trl.write_if_changed(LEAN_GEN, text)
+            report = {f: reason[:300] for f in report}
+    ck.extra["translated_functions"] = report
+    bad = {k: v for k, v in report.items() if v != "ok"}
+    if bad:
+        ck.extra["untranslatable"] = bad
+    return [{"table": "C14Fns: simulate, simulate_from_clp, simulate_full_model translated statement by statement (guards, the matrix call, "
+                      "the column loop with isel / sel / np.dot, the transposed global matrix as clp table, coordinate selection, dispatch, "
+                      "seeding and the normal draw on numpy's global generator)",
+             "source": trl.SOURCE, "sha1": trl.sha1(text)}]
 
 
 # ------------------------------------------------------------------------------------------------------------
@@ -299,15 +343,107 @@ def dyadic(rng, nonneg):
 
 def exact_case(rng):
     spec = gen_scheme.rand_spec(rng, allow_items=False)
-    P = spec["parameters"]
-    sim = {}
     # model-level weights (allow_items=False switches them off in the generator)
     if rng.random() < 0.25:
         who = rng.sample([d["label"] for d in spec["datasets"]], rng.randint(1, len(spec["datasets"])))
         spec["weights"].append({"datasets": who, "value": rng.choice([2.0, 0.5, 4.0]),
                                 "global_interval": gen_scheme.jsonable_interval([rng.choice([1.0, 2.0, -gen_scheme.INF]), rng.choice([3.0, 12.0, gen_scheme.INF])]),
                                 "model_interval": None})
-    descending = not spec["weights"] and rng.random() < 0.15
+    return attach_sim(rng, spec, descending=not spec["weights"] and rng.random() < 0.15)
+
+
+def label_order_case(rng):
+    """a linked group at tolerance 0 whose members carry the SAME clp labels in DIFFERENT orders, on global axes of magnitude
+    1e4 some of whose points differ by 2^-4 / 2^-5 (< 1e-5 relative: must not be linked) and some of which coincide (linked)"""
+    labels = rng.choice([["decay", "artifact"], ["decay", "artifact", "s3"], ["s1", "s2"]])
+    base = rng.choice([10000.0, 20000.0, 12288.0])
+    n_pts = rng.choice([2, 3])
+    pts = [base + j for j in range(n_pts)]
+    n_ds = rng.choice([2, 2, 3])
+    params = {}
+    datasets = []
+    for i in range(n_ds):
+        lab = list(labels)
+        if i > 0:
+            while lab == labels:
+                rng.shuffle(lab)
+        elif rng.random() < 0.3:
+            rng.shuffle(lab)
+        if i == 0:
+            gax = list(pts)
+        else:
+            gax = [x + rng.choice([0.0, 0.0625, -0.03125, 0.0625]) for x in pts]
+            if all(x in pts for x in gax):
+                gax[0] = pts[0] + 0.0625
+        n_model = rng.randint(len(lab) + 1, len(lab) + 2)
+        split = len(lab) >= 2 and rng.random() < 0.4
+        idx_dep = rng.random() < 0.3
+
+        def mat(ncol):
+            m = [[1.0 if r == c else 0.0 for c in range(ncol)] for r in range(ncol)] + \
+                [[float(rng.randint(0, 3)) for _ in range(ncol)] for _ in range(n_model - ncol)]
+            return m
+        if split:
+            k = rng.randint(1, len(lab) - 1)
+            full = mat(len(lab))
+            mcs = [{"labels": lab[:k], "index_dependent": False, "base": [r[:k] for r in full], "pars": None, "scale": None},
+                   {"labels": lab[k:], "index_dependent": False, "base": [r[k:] for r in full], "pars": None, "scale": None}]
+        elif idx_dep:
+            mcs = [{"labels": lab, "index_dependent": True, "base": [mat(len(lab)) for _ in gax], "pars": None, "scale": None}]
+        else:
+            mcs = [{"labels": lab, "index_dependent": False, "base": mat(len(lab)), "pars": None, "scale": None}]
+        scale = None
+        if rng.random() < 0.4:
+            scale = f"p.{len(params) + 1}"
+            params[scale] = rng.choice([2.0, 0.5, 4.0])
+        weight = None
+        if rng.random() < 0.25:
+            weight = [[rng.choice([1.0, 2.0, 0.5]) for _ in gax] for _ in range(n_model)]
+        datasets.append({"label": f"d{i + 1}", "group": "default", "global_axis": gax, "model_axis": [float(j) for j in range(n_model)],
+                         "dims_order": rng.choice(["mg", "gm"]), "data": None, "weight": weight, "scale": scale, "mcs": mcs, "gmcs": []})
+    if not params:
+        params["p.1"] = 2.0
+        datasets[0]["scale"] = "p.1"
+    spec = {"groups": {"default": {"link_clp": True, "residual_function": rng.choice(["variable_projection", "variable_projection", "non_negative_least_squares"])}},
+            "clp_link_tolerance": 0.0, "clp_link_method": rng.choice(["nearest", "backward", "forward"]), "parameters": params,
+            "datasets": datasets, "constraints": [], "relations": [], "penalties": [], "weights": []}
+    case = attach_sim(rng, spec, descending=False)
+    case["tags"] = ["label-order"]
+    return case
+
+
+def full_weighted_case(rng):
+    """a full model (global megacomplexes) with a dataset weight variable or a model `weights:` item"""
+    for _ in range(50):
+        spec = gen_scheme.rand_spec(rng, allow_items=False, allow_linked=False, force={"full_model": True, "n_groups": 1})
+        if all(len(d["global_axis"]) >= len({l for mc in d["mcs"] for l in mc["labels"]}) for d in spec["datasets"]):
+            break
+    how = rng.choice(["dataset-weight", "model-weight", "both"])
+    for g in spec["groups"].values():
+        # the exact NNLS model enumerates supports: 2^(global labels x model labels); keep the Kronecker problem small
+        if g["residual_function"] == "non_negative_least_squares" and \
+                any(len({l for mc in d["mcs"] for l in mc["labels"]}) * (len({l for mc in d["mcs"] for l in mc["labels"]}) + 1) > 6 for d in spec["datasets"]):
+            g["residual_function"] = "variable_projection"
+    for d in spec["datasets"]:
+        d["weight"] = None
+        if how in ("dataset-weight", "both") and (how == "dataset-weight" or rng.random() < 0.5):
+            d["weight"] = [[rng.choice([1.0, 2.0, 0.5, 4.0]) for _ in d["global_axis"]] for _ in d["model_axis"]]
+    if how in ("model-weight", "both"):
+        if all(d["weight"] is not None for d in spec["datasets"]):
+            spec["datasets"][0]["weight"] = None          # (a dataset weight would win over the model weight, with a warning)
+        who = [d["label"] for d in spec["datasets"] if d["weight"] is None]
+        spec["weights"].append({"datasets": who, "value": rng.choice([2.0, 0.5, 4.0]),
+                                "global_interval": gen_scheme.jsonable_interval([rng.choice([1.0, 2.0, -gen_scheme.INF]), rng.choice([3.0, 12.0, gen_scheme.INF])]),
+                                "model_interval": rng.choice([None, gen_scheme.jsonable_interval([1.0, gen_scheme.INF])])})
+    case = attach_sim(rng, spec, descending=False)
+    case["tags"] = ["full-weighted:" + how]
+    return case
+
+
+def attach_sim(rng, spec, descending=False):
+    """clp tables / generating clps for every dataset of the spec -> an `exact` case"""
+    P = spec["parameters"]
+    sim = {}
     group_order = []
     for ds in spec["datasets"]:
         if ds["group"] not in group_order:
@@ -461,6 +597,114 @@ def malformed_case(rng):
     return {"kind": "malformed", "spec": spec, "sim": {ds["label"]: entry}}
 
 
+def call_case(rng):
+    """the call itself: order / surplus / absence of the entries of `coordinates`, on a single unlinked clp-driven or full-model dataset"""
+    base = exact_case(rng)
+    spec = base["spec"]
+    ds = spec["datasets"][0]
+    spec["datasets"] = [ds]
+    e = dict(base["sim"][ds["label"]])
+    e["call"] = rng.choice(["model-first", "global-first", "extra-last", "extra-last-global-first", "no-model", "only-model", "model-first"])
+    if rng.random() < 0.3:
+        e["noise"] = {"std": rng.choice([0.5, 1.0, 0.0]), "seed": rng.choice([0, 5, None]), "global_seed": rng.randint(1, 10 ** 6)}
+    return {"kind": "call", "spec": spec, "sim": {ds["label"]: e}}
+
+
+def call_coords(ds, how):
+    m, g = np.array(ds["model_axis"], dtype=float), np.array(ds["global_axis"], dtype=float)
+    extra = np.array([7.0, 8.0, 9.0])
+    return {"model-first": [("model", m), ("global", g)], "global-first": [("global", g), ("model", m)],
+            "extra-last": [("model", m), ("global", g), ("aux", extra)], "extra-last-global-first": [("global", g), ("aux", extra), ("model", m)],
+            "no-model": [("global", g)], "only-model": [("model", m)]}[how]
+
+
+def run_call(ck, case, batch, lean=True):
+    from glotaran.simulation import simulate
+
+    spec = copy.deepcopy(case["spec"])
+    ds = spec["datasets"][0]
+    e = case["sim"][ds["label"]]
+    light = {"kind": "call", "spec": case["spec"], "sim": case["sim"]}
+    ds["data"] = [[0.0] * len(ds["global_axis"]) for _ in ds["model_axis"]]
+    _, model, parameters, _ = gen_scheme.build(spec)
+    pairs = call_coords(ds, e["call"])
+    clp_da = clp_dataarray(e["clp"], "global", ds["global_axis"], e["variant"])
+    nz = e.get("noise")
+    kw = {}
+    if nz is not None:
+        np.random.seed(nz["global_seed"])
+        kw = {"noise": True, "noise_std_dev": nz["std"], "noise_seed": nz["seed"]}
+    ck.count("call:" + e["call"])
+    try:
+        out = simulate(model, ds["label"], parameters, dict(pairs), clp=clp_da, **kw)
+        real = ("ok", out)
+    except KeyError as exc:
+        real = ("err", "coord-key" if exc.args and exc.args[0] == "model" else classify_error(exc))
+    except StopIteration:
+        real = ("err", "no-global-dim")
+    except Exception as exc:  # noqa: BLE001
+        real = ("err", classify_error(exc))
+    ck.count("call-outcome:" + ("ok" if real[0] == "ok" else "err:" + real[1].split(":")[0]))
+    nontrivial = False
+    # oracle (statement): a defined simulation is returned on the coordinates of the request
+    names = [n for n, _ in pairs]
+    if real[0] == "ok":
+        ck.oracle_evals += 1
+        got = real[1]
+        want_dims = ("model", "global")
+        ok = tuple(got.data.dims) == want_dims and set(got.coords) == {"model", "global"} and \
+            np.array_equal(got.coords["model"].values, dict(pairs)["model"]) and np.array_equal(got.coords["global"].values, dict(pairs)["global"])
+        if not ok:
+            ck.violation("simulated-coords", f"simulate(coordinates with keys {names}) returned dims {tuple(got.data.dims)} / coordinates "
+                         f"{ {k: np.asarray(v.values).tolist() for k, v in got.coords.items()} }: not the model and global axes handed in", light)
+        nontrivial = bool(np.any(np.asarray(got.data.values) != 0))
+    elif "model" in names and len(names) >= 2 and expected_rejection(spec_capture(spec, ds), e["clp"], len(ds["global_axis"])) is None:
+        ck.violation("simulate-raises-on-valid-input:" + real[1].split(":")[0], f"simulate(coordinates with keys {names}) raised {real[1]}", light)
+    ck.case(("call", json.dumps(case, sort_keys=True, default=str)), nontrivial)
+    if lean:
+        n = len(ds["model_axis"]) * len(ds["global_axis"])
+        line = "simcall {} {} {} {} {} {}".format(
+            enc("model"), lst(lst([enc(nm), rats(ax.tolist())]) for nm, ax in pairs),
+            lst(spec_mc_txt(spec, m) for m in ds["mcs"]), lst(spec_mc_txt(spec, m) for m in (ds.get("gmcs") or [])),
+            clp_txt(e["clp"]), noise_txt(nz, n))
+        batch.append({"call": case, "lines": [line], "real": real, "light": light})
+
+
+def judge_call(ck, b, ans):
+    a, real, light = ans[0], b["real"], b["light"]
+    if a in ("bad-op", "bad-line"):
+        raise core.HarnessError(f"model rejected a protocol line: {b['lines'][0][:300]}")
+    if real[0] == "err":
+        if a != "err " + real[1]:
+            ck.disagree("simulate-call-error-kind", f"simulate raised {real[1]!r}, model answered {a[:80]!r}", light)
+        return
+    if not a.startswith("result "):
+        ck.disagree("simulate-call-model-error", f"simulate returned a dataset, model answered {a!r}", light)
+        return
+    dims, coords, data = core.parse_tree(a[7:])[:3]
+    got = real[1]
+    mdims = [core.dec(x) for x in dims]
+    mcoords = {core.dec(c[0]): [Fraction(v) for v in c[1]] for c in coords}
+    rcoords = {str(k): [Fraction(float(x)) for x in np.asarray(v.values).ravel()] for k, v in got.coords.items()}
+    nz = b["call"]["sim"][next(iter(b["call"]["sim"]))].get("noise")
+    same = list(got.data.dims) == mdims and rcoords == mcoords
+    vals = np.asarray(got.data.values, dtype=float)
+    mdata = parse_mat(data)
+    same = same and len(mdata) == vals.shape[0] and all(len(r) == vals.shape[1] for r in mdata)
+    if same:
+        for i, row in enumerate(mdata):
+            for j, v in enumerate(row):
+                x = Fraction(float(vals[i, j]))
+                ok = (v == x) if nz is None else abs(v - x) <= Fraction(4 * EPS) * (abs(v) + abs(Fraction(nz["std"])) * 40)
+                same = same and ok
+    if not same:
+        d = {"key": "simulate-call", "what": f"dims / coordinates / data of the returned dataset differ from the Lean model (real dims {list(got.data.dims)}, "
+             f"model dims {mdims})", "case": light}
+        if any(v["key"].startswith(("simulated-coords", "simulated-data-differs", "noise-")) for v in ck.violations):
+            d["explained"] = True
+        ck.disagreements.append(d)
+
+
 def permutation_cases():
     """bounded exhaustive: every order of the 3 clp labels x every position of one unused label (or none) x both layouts,
     on a fixed index-dependent dataset with two megacomplexes sharing a label"""
@@ -588,6 +832,8 @@ def run_exact(ck, case, batch, lean=True, fit=True):
             data = noisy
         ds["data"] = data.tolist()
     all_ok = all(o[0] == "ok" for o in outcomes.values())
+    for t in case.get("tags", []):
+        ck.count("exact-family:" + t)
     ck.case((case["kind"], json.dumps(case, sort_keys=True, default=str)), nontrivial)
     real_obj = real_res = None
     weights = {d["label"]: (np.array(d["weight"], dtype=float) if d.get("weight") is not None else None) for d in spec["datasets"]}
@@ -1220,8 +1466,14 @@ def run_recovery(ck, case, frac, wide=False):
 
     light = {"kind": "recovery", "zoo": case, "perturbation": frac, "wide": wide}
     model, truth = zoo.build(case)
-    data = {dl: simulate(model, dl, truth, zoo.coords_of(case, dl), clp=clp_dataarray(d.get("clp"), "spectral", d["spectral"], "plain"))
-            for dl, d in case["data"].items()}
+    try:
+        data = {dl: simulate(model, dl, truth, zoo.coords_of(case, dl), clp=clp_dataarray(d.get("clp"), "spectral", d["spectral"], "plain"))
+                for dl, d in case["data"].items()}
+    except Exception as e:  # noqa: BLE001 - the data of a recovery case are a valid simulation
+        ck.case(("recovery", json.dumps(light, sort_keys=True, default=str)), False)
+        ck.violation("simulate-raises-on-valid-input:" + ":".join(classify_error(e).split(":")[:2]),
+                     f"simulate raised {classify_error(e)} for a valid builtin model (recovery case)", light)
+        return
     start = truth.copy()
     for l, f in frac.items():
         p = start.get(l)
@@ -1316,7 +1568,9 @@ def flush(ck, batch):
         n = len(b["lines"])
         ans = answers[pos:pos + n]
         pos += n
-        if "zoo" in b:
+        if "call" in b:
+            judge_call(ck, b, ans)
+        elif "zoo" in b:
             judge_zoo(ck, b, ans)
         else:
             judge_exact(ck, b, ans)
@@ -1365,6 +1619,8 @@ def _run_case(ck, case, batch, lean, kind):
             run_exact(ck, case, batch, lean=lean)
         elif kind == "zoo":
             run_zoo(ck, case, batch, lean=lean)
+        elif kind == "call":
+            run_call(ck, case, batch, lean=lean)
         elif kind == "recovery":
             run_recovery(ck, case["zoo"], case["perturbation"], wide=bool(case.get("wide")))
         else:
@@ -1423,6 +1679,16 @@ def _run(ck):
             flush(ck, batch)
     flush(ck, batch)
     lap("exact+noise")
+    for i in range(ck.n(24, 500)):
+        run_case(ck, label_order_case(rng), batch)
+        ck.count("stream:label-order-near-axes")
+        if i % 2 == 0:
+            run_case(ck, full_weighted_case(rng), batch)
+            ck.count("stream:full-model-weighted")
+        if len(batch) >= 40:
+            flush(ck, batch)
+    flush(ck, batch)
+    lap("label-order+full-weighted")
     for i in range(ck.n(40, 600)):
         run_case(ck, malformed_case(rng), batch)
         ck.count("stream:malformed")
@@ -1430,6 +1696,13 @@ def _run(ck):
             flush(ck, batch)
     flush(ck, batch)
     lap("malformed")
+    for i in range(ck.n(40, 600)):
+        run_case(ck, call_case(rng), batch)
+        ck.count("stream:call")
+        if len(batch) >= 40:
+            flush(ck, batch)
+    flush(ck, batch)
+    lap("call")
     for i in range(ck.n(60, 1000)):
         case = zoo_variants(rng, zoo.rand_case(rng))
         run_case(ck, case, batch)
@@ -1467,6 +1740,10 @@ def search(ck):
             run_case(ck, with_noise(rng, exact_case(rng)), batch, lean=False)
         if i % 2 == 0:
             run_case(ck, zoo_variants(rng, zoo.rand_case(rng)), batch, lean=False)
+        if i % 4 == 1:
+            run_case(ck, call_case(rng), batch, lean=False)
+            run_case(ck, label_order_case(rng), batch, lean=False)
+            run_case(ck, full_weighted_case(rng), batch, lean=False)
         if ck.violations:
             return
 
